@@ -19,6 +19,8 @@ macro_rules! props {
 pub mod asmcheck;
 pub mod asmrun;
 pub mod objrt;
+pub mod simcmp;
+pub mod simfam;
 
 props! {
     "C01" => c01,
@@ -28,6 +30,7 @@ props! {
     "C05" => c05,
     "C06" => c06,
     "C07" => c07,
+    "C08" => c08,
     "C15" => c15,
     "C17" => c17,
     "C18" => c18,
